@@ -179,6 +179,38 @@ func queueScenarios() []*sched.Scenario {
 	// elements that are still queued.  Which element the bound drops is not part of the statement (the code drops the
 	// last heap slot, not always the furthest in the future), so the kept set is taken from a twin queue that gets the
 	// same Adds and is simply drained.  The explorer picks the order of the three times and the handle to cancel.
+	// Cancel is idempotent for every handle, whatever slot of the heap the element had and whatever was added since
+	add("queue/cancel-twice-with-adds-in-between", 1, false, func() {
+		q := timed.NewQueue[int]()
+		b := newBook()
+		perm := vrt.Choose(3, 0) // which of three elements is cancelled (first / middle / last heap slot)
+		var hs [3]*timed.QueueElement[int]
+		for i := 0; i < 3; i++ {
+			b.due[i+1] = 2 + 2*i
+			hs[i] = q.Add(i+1, at(2+2*i))
+		}
+		hs[perm].Cancel()
+		b.due[4], b.due[5] = 3, 9
+		q.Add(4, at(3))
+		q.Add(5, at(9))
+		hs[perm].Cancel() // no-op
+		hs[perm].Cancel()
+		want := map[int]bool{1: true, 2: true, 3: true, 4: true, 5: true}
+		delete(want, perm+1)
+		for range want {
+			if v := q.Poll(true); v != 0 {
+				b.delivered(v)
+			}
+		}
+		for it := range want {
+			if b.runs[it] != 1 {
+				vrt.Fail("not-delivered", "item %d was delivered %d times; only item %d was cancelled (three times)", it, b.runs[it], perm+1)
+			}
+		}
+		if b.runs[perm+1] != 0 {
+			vrt.Fail("cancelled-but-delivered", "the cancelled item %d was delivered", perm+1)
+		}
+	})
 	add("queue/maxsize2-dropped-handle", 1, false, func() {
 		perms := [][3]int{{2, 4, 6}, {2, 6, 4}, {4, 2, 6}, {4, 6, 2}, {6, 2, 4}, {6, 4, 2}}
 		times := perms[vrt.Choose(len(perms), 0)]
